@@ -12,8 +12,8 @@ CONFIG = dict(
          'inside the domain of C04_gc / C04_hib. graph: the stages generatePlan -> collectGarbage -> insertHibernateBoot(d), '
          'd = 0..8, called one by one on a commit graph (compared with the models stage by stage) and the composed '
          'prepareRunPlan(commits, d) on the reversed slice; every full plan validated by c04_ok. Graph generators as in C02: all '
-         'DAGs on <=5 commits x all hash orders (one case per graph and distinct generatePlan output), thorough: 6 commits x every '
-         '6th order, random histories to 14 / 40 commits. Non-trivial = a fork or merge and >=4 actions (fn*) / a commit with two '
+         'DAGs on <=5 commits x all hash orders (one case per graph and distinct generatePlan output), thorough: connected 6-commit DAGs x every '
+         '24th order, random histories to 14 / 40 commits. Non-trivial = a fork or merge and >=4 actions (fn*) / a commit with two '
          'distinct parents (graph); distinct = distinct input fields.',
     exhaustive_note='all DAGs on <=5 commits x all hash orders x distances 0..8 (cases de-duplicated by generatePlan output)',
     assumptions=['hibernation distance >= 0 in the theorems (prepareRunPlan calls insertHibernateBoot only for d > 0)',
